@@ -688,7 +688,8 @@ func (b *backend) Put(w http.ResponseWriter, r *http.Request) error {
 		w.Header().Set("Last-Modified", ao.ModTime.UTC().Format(http.TimeFormat))
 	}
 	if ao.Path != "" {
-		w.Header().Set("Location", ao.Path)
+		// The header carries a URI reference, like an href element
+		w.Header().Set("Location", (&url.URL{Path: ao.Path}).String())
 	}
 
 	// TODO: http.StatusNoContent if the resource already existed
